@@ -386,12 +386,12 @@ func (e *cmEnv) both(src string) (file, ast string, diags int) {
 	return
 }
 
-func cmParseAnswer(s string) (file, ast, diags string, ok bool) {
+func cmParseAnswer(s string) (file, ast, diags, hyp string, ok bool) {
 	f := strings.Fields(s)
-	if len(f) != 3 || !strings.HasPrefix(f[0], "file=") || !strings.HasPrefix(f[1], "ast=") || !strings.HasPrefix(f[2], "diags=") {
-		return "", "", "", false
+	if len(f) != 4 || !strings.HasPrefix(f[0], "file=") || !strings.HasPrefix(f[1], "ast=") || !strings.HasPrefix(f[2], "diags=") || !strings.HasPrefix(f[3], "hyp=") {
+		return "", "", "", "", false
 	}
-	return f[0][5:], f[1][4:], f[2][6:], true
+	return f[0][5:], f[1][4:], f[2][6:], f[3][4:], true
 }
 
 // cmHasAliasOrBinary: the positions the theorem's `Supported` hypothesis excludes
@@ -496,7 +496,7 @@ func cmStandard(c *ctx, r *Report, nGen int) error {
 	for i, m := range out {
 		g, it := res[i], kept[i]
 		r.Evaluations++
-		mf, ma, md, ok := cmParseAnswer(m)
+		mf, ma, md, hyp, ok := cmParseAnswer(m)
 		cs := Case{Op: "callmeta", Input: map[string]string{"src": it.src}, Impl: fmt.Sprintf("file=%s ast=%s diags=%d", g.file, g.ast, g.diags), Model: m}
 		if !ok {
 			r.disagree(cs)
@@ -522,9 +522,29 @@ func cmStandard(c *ctx, r *Report, nGen int) error {
 			kind = g.file
 		}
 		r.hist(fmt.Sprintf("callmeta:file=%s,ast=%v,diag-free=%v", kind, g.ast != "none", g.diags == 0))
-		// (ii) the oracle: a called workflow the parser accepts has one interface
+		r.hist("callmeta:hypotheses=" + hyp)
+		// the hypotheses of the theorem (evaluated by the driver on the workflow_call: node) may fail only for the reasons
+		// they name: an alias, a !!binary scalar, or `required:` given as a string
+		if hyp == "0" && !g.unsup && !strings.Contains(it.src, "required: ${{") && !strings.Contains(it.src, "required: '") && !strings.Contains(it.src, "required: \"") && !strings.Contains(it.src, "required: !!str") {
+			plain := false // `required: yes` and the like are !!str scalars too
+			for _, w := range []string{"yes", "no", "on", "off", "y", "n", "Yes", "tRue"} {
+				if strings.Contains(it.src, "required: "+w+"\n") || strings.Contains(it.src, "required: "+w+",") || strings.Contains(it.src, "required: "+w+"}") {
+					plain = true
+				}
+			}
+			if !plain {
+				cs.Note = "yaml.v3 built a tree outside the theorem's hypotheses (Sane) for no named reason"
+				r.disagree(cs)
+			}
+		}
+		// (ii) the oracle: a called workflow the parser accepts has one interface. Where the theorem applies (hyp=1, no
+		// diagnostic) it is the theorem's conclusion replayed on the real code; the oracle also covers hyp=0 trees without
+		// alias / !!binary (the recorded finding lives there)
 		if g.diags != 0 || g.unsup || g.ast == "none" {
 			continue
+		}
+		if hyp == "1" {
+			r.hist("callmeta:theorem-applies")
 		}
 		r.nontrivial("callmeta:" + g.ast)
 		if g.file == g.ast {
